@@ -743,7 +743,7 @@ class ColKeys(H):
     """for col in s[stat].keys(): the body is executed ONCE, for the key that is the Skolem column c0 of the postconditions (an
     arbitrary column).  The body may touch only that key's own list (checked: anything else is Unsupported) and keys are distinct,
     so c0's list after the loop is what ITS iteration leaves: If(branch condition, list stored on that branch, old list) - the
-    branches of the body (e.g. `if any(x is None ...): continue`) are merged into one path.  Other columns' lists are not tracked:
+    branches of the body (e.g. `if len(s[stat][col]) != len(pf.row_groups): continue`) are merged into one path.  Other columns' lists are not tracked:
     nothing below may read them (checked)."""
 
     def __init__(self, stat):
@@ -824,6 +824,9 @@ class PF(H):
     def attr(self, eng, p, name):
         if name == "columns":
             return Custom(ColList(self.mdl, self.sink))
+        if name == "row_groups":
+            n = self.mdl.n_rg
+            return Custom(LSeq(n, lambda j: Opaque(("row_group", str(j)))))      # only its length is ever asked
         if name in ("statistics", "_statistics"):
             # the property returns the handle's CACHED object - owned by the handle, distinct from what statistics(pf) builds
             d = StatsD(self.mdl, owner="handle")
@@ -940,13 +943,14 @@ def run_sorted(funcs, timeout, n_rg, m_sel, collapsed="symbolic", paths_only=Fal
             st, m, secs = REFUTED, None, 0.0
         res.add("sorted_columns.listed_entry_is_selected_statistics", st, dict(mf(m), differs_at=backends.model_value(m, j)) if m else None, secs,
                 detail="out[c] == {'min': min', 'max': max'}: the column's statistics of exactly the selected row groups (same index list for both)")
-        # lemma: a column whose lists were NOT re-sliced (the filter loop skips a list that holds a None) is never listed
+        # lemma: a column whose lists were NOT re-sliced (the filter loop skips a list whose length is not the number of row groups) is never listed
         sk = q.ghost.get("skipped", {})
         lemma = z3.And(*[z3.Not(c) for c in (sk.get("min"), sk.get("max")) if c is not None]) if sk else z3.BoolVal(True)
         st, m, secs = discharge_inst(q.pc, q.axioms, univ, inexact, lemma, timeout)
         res.add("sorted_columns.not_resliced_column_is_never_listed", st, mf(m) if m is not None else None, secs,
                 detail="lemma for listed_entry_is_selected_statistics: listed => the filter branch did re-slice the column's min and max lists "
-                       "(a list left alone holds a None, and a None bound is never listed)")
+                       "(a list left alone has another length than pf.row_groups: by the contract of statistics() that is the collapsed [None], "
+                       "and a None bound is never listed)")
         # (2..5) from the property text, over the spec lists
         goals = {
             "listed_implies_no_None_bound": (z3.And(smin.n == smax.n, z3.Implies(z3.And(0 <= j, j < smin.n), z3.And(z3.Not(smin.at(j).isnone), z3.Not(smax.at(j).isnone)))),
@@ -970,11 +974,6 @@ def run_sorted(funcs, timeout, n_rg, m_sel, collapsed="symbolic", paths_only=Fal
                  Univ(2, lambda t, u: z3.Implies(z3.And(0 <= t, t < u, u < smin.n),
                                                  z3.And(smin.at(t).val.z <= smin.at(u).val.z, smax.at(t).val.z <= smax.at(u).val.z))),
                  Univ(1, lambda t: z3.Implies(z3.And(0 <= t, t + 1 < smin.n), smax.at(t).val.z < smin.at(t + 1).val.z))]
-    omin, omax = mdl.orig("min", mdl.c0), mdl.orig("max", mdl.c0)
-    ft = mdl.filters_truthy
-    # with filters the column's statistics must be complete (no None in ANY row group): the filter branch leaves incomplete lists alone
-    spec_univ.append(Univ(1, lambda t: z3.Implies(ft, z3.And(z3.Implies(z3.And(0 <= t, t < omin.n), nn(omin.at(t))),
-                                                                z3.Implies(z3.And(0 <= t, t < omax.n), nn(omax.at(t)))))))
     spec_plain = [smin.n >= 1, smin.n == smax.n]
     if _is_const_int(mdl.n_rg) and _is_const_int(mdl.m_sel):       # bounded run: the spec condition is expanded completely
         K = max(z3.simplify(mdl.n_rg).as_long(), z3.simplify(mdl.m_sel).as_long(), 1) + 1
@@ -988,8 +987,7 @@ def run_sorted(funcs, timeout, n_rg, m_sel, collapsed="symbolic", paths_only=Fal
         st, m, secs = discharge_inst(q.pc, [*q.axioms, *spec_plain], q.ghost.get("univ", []) + spec_univ, bool(q.ghost.get("inexact")),
                                      z3.BoolVal(False), timeout)
         res.add("sorted_columns.disjoint_increasing_implies_listed", st, mf(m) if m is not None else None, secs,
-                detail="converse: selected statistics None-free, non-empty, min / max ascending and max[i] < min[i+1] for all i "
-                       "(with filters: no None in the column's statistics of ANY row group) => the column is listed")
+                detail="converse: selected statistics None-free, non-empty, min / max ascending and max[i] < min[i+1] for all i => the column is listed")
     n_ret = 0
     for q in outs:
         if q.ctl[0] != "ret":
